@@ -31,19 +31,27 @@ def shapes():
                [('tuple', 1), ('tuple', 1)], [('named', 1), ('named', 1), ('tuple', 3), ('unit', 0)],
                # several field-less variants of every form (distinct field-less variants are distinct values too)
                [('unit', 0), ('unit', 0)], [('unit', 0), ('tuple', 0), ('named', 0)],
-               [('unit', 0), ('tuple', 1), ('unit', 0)], [('tuple', 0), ('named', 2), ('named', 0), ('unit', 0), ('tuple', 1)]]:
+               [('unit', 0), ('tuple', 1), ('unit', 0)], [('tuple', 0), ('named', 2), ('named', 0), ('unit', 0), ('tuple', 1)],
+               # plain-data fields (u8) mixed with the recording type, in every position: fields are cloned one by one
+               # whatever their types are
+               [('tuple', 2, 'Ru'), ('named', 2, 'uR')], [('named', 3, 'RuR'), ('tuple', 3, 'uuR'), ('unit', 0)],
+               [('tuple', 2, 'uu'), ('tuple', 1, 'u')]]:
         out.append((True, vs))
-    return out
+    out.append((False, [('tuple', 2, 'Ru')]))
+    out.append((False, [('named', 3, 'uRu')]))
+    return [(e, [v if len(v) == 3 else (v[0], v[1], 'R' * v[1]) for v in vs]) for e, vs in out]
 
 
-def fields_s(kind, n):
-    fs = [sx.field(RT, name=('f%d' % i) if kind == 'named' else None) for i in range(n)]
+def fields_s(kind, n, pat=None):
+    pat = pat or 'R' * n
+    fs = [sx.field(RT if pat[i] == 'R' else sx.tid('u8'), name=('f%d' % i) if kind == 'named' else None) for i in range(n)]
     return sx.named(fs) if kind == 'named' else (sx.unnamed(fs) if kind == 'tuple' else sx.UNIT)
 
 
-def value_expr(is_enum, vi, kind, n, base):
+def value_expr(is_enum, vi, kind, n, base, pat=None):
+    pat = pat or 'R' * n
     path = ('E::V%d' % vi) if is_enum else 'X'
-    vals = ['Rc_(%d)' % (base + i) for i in range(n)]
+    vals = [('Rc_(%d)' if pat[i] == 'R' else '%du8') % (base + i) for i in range(n)]
     if kind == 'named':
         return '%s { %s }' % (path, ', '.join('f%d: %s' % (i, v) for i, v in enumerate(vals)))
     if kind == 'tuple':
@@ -77,7 +85,7 @@ class C07(Prop):
         for (is_enum, vs), mode, tnames, rp in plans:
             ia = [sx.a_other(rp)] if rp else []
             if is_enum:
-                it = sx.enum('E', [sx.variant('V%d' % i, fields_s(k, n)) for i, (k, n) in enumerate(vs)], attrs=ia)
+                it = sx.enum('E', [sx.variant('V%d' % i, fields_s(k, n, pt)) for i, (k, n, pt) in enumerate(vs)], attrs=ia)
                 kw = '(enum ('
             else:
                 it = sx.struct('X', fields_s(*vs[0]), attrs=ia)
@@ -85,8 +93,8 @@ class C07(Prop):
             tl = [(t, None) for t in tnames]
             req = sx.inv_attr(sx.dx(tl), it) if mode == 'attr' else sx.inv_derive(
                 kw + sx.a_derive_ex(sx.dx(tl)) + ' ' + it[len(kw):])
-            out.append((req, dict(features=('enum' if is_enum else 'struct', mode, '+'.join(tnames), rp or 'no-repr') + tuple('%s%d' % v for v in vs),
-                                  enum=is_enum, vs=vs, nontrivial=any(n for _, n in vs))))
+            out.append((req, dict(features=('enum' if is_enum else 'struct', mode, '+'.join(tnames), rp or 'no-repr') + tuple('%s%d%s' % (v[0], v[1], v[2] if 'u' in v[2] else '') for v in vs),
+                                  enum=is_enum, vs=vs, nontrivial=any(v[1] for v in vs))))
         return out
 
     def view(self, r, parts):
@@ -102,23 +110,23 @@ class C07(Prop):
             src = ['#[derive(Debug, PartialEq)]\n' + head + r.item, 'pub fn run() {']
             exp = []
             vs = m['vs']
-            for ai, (ka, na) in enumerate(vs):
-                a = value_expr(m['enum'], ai, ka, na, 1)
+            for ai, (ka, na, pa) in enumerate(vs):
+                a = value_expr(m['enum'], ai, ka, na, 1, pa)
                 src.append('    { let a: %s = %s; let _ = take_log(); let c = a.clone(); println!("%d\\tclone%d\\t{:?}\\t{}", c, take_log()); }'
                            % (ty, a, r.cid, ai))
-                exp.append(('clone%d' % ai, _dbg(m['enum'], ai, ka, [1 + i + 100 for i in range(na)]),
-                            ','.join('clone:%d' % (1 + i) for i in range(na))))
-                for bi, (kb, nb) in enumerate(vs):
-                    b = value_expr(m['enum'], bi, kb, nb, 11)
+                exp.append(('clone%d' % ai, _dbg(m['enum'], ai, ka, [1 + i + (100 if pa[i] == 'R' else 0) for i in range(na)], pa),
+                            ','.join('clone:%d' % (1 + i) for i in range(na) if pa[i] == 'R')))
+                for bi, (kb, nb, pb) in enumerate(vs):
+                    b = value_expr(m['enum'], bi, kb, nb, 11, pb)
                     src.append('    { let mut a: %s = %s; let b: %s = %s; let _ = take_log(); a.clone_from(&b); '
                                'println!("%d\\tfrom%d_%d\\t{:?}\\t{:?}\\t{}", a, b, take_log()); }' % (ty, a, ty, b, r.cid, ai, bi))
                     if ai == bi:
-                        want_a = _dbg(m['enum'], ai, ka, [11 + i + 1000 for i in range(na)])
-                        log = ','.join('clone_from:%d<-%d' % (1 + i, 11 + i) for i in range(na))
+                        want_a = _dbg(m['enum'], ai, ka, [11 + i + (1000 if pa[i] == 'R' else 0) for i in range(na)], pa)
+                        log = ','.join('clone_from:%d<-%d' % (1 + i, 11 + i) for i in range(na) if pa[i] == 'R')
                     else:
-                        want_a = _dbg(m['enum'], bi, kb, [11 + i + 100 for i in range(nb)])
-                        log = ','.join('clone:%d' % (11 + i) for i in range(nb))
-                    exp.append(('from%d_%d' % (ai, bi), want_a, _dbg(m['enum'], bi, kb, [11 + i for i in range(nb)]), log))
+                        want_a = _dbg(m['enum'], bi, kb, [11 + i + (100 if pb[i] == 'R' else 0) for i in range(nb)], pb)
+                        log = ','.join('clone:%d' % (11 + i) for i in range(nb) if pb[i] == 'R')
+                    exp.append(('from%d_%d' % (ai, bi), want_a, _dbg(m['enum'], bi, kb, [11 + i for i in range(nb)], pb), log))
             src.append('}')
             expect[r.cid] = exp
             mods.append(l2.Module(r.cid, '\n'.join(src), r))
@@ -150,15 +158,17 @@ class C07(Prop):
                     failures=failures, samples=samples)
 
 
-def _dbg(is_enum, vi, kind, ids):
+def _dbg(is_enum, vi, kind, ids, pat=None):
     """Debug text of the std-derived Debug of the value"""
+    pat = pat or 'R' * len(ids)
     name = ('V%d' % vi) if is_enum else 'X'
+    show = lambda i, x: ('Rc_(%d)' % x) if pat[i] == 'R' else str(x)
     if kind == 'named':
         if not ids:
             return name
-        return '%s { %s }' % (name, ', '.join('f%d: Rc_(%d)' % (i, x) for i, x in enumerate(ids)))
+        return '%s { %s }' % (name, ', '.join('f%d: %s' % (i, show(i, x)) for i, x in enumerate(ids)))
     if kind == 'tuple':
-        return '%s(%s)' % (name, ', '.join('Rc_(%d)' % x for x in ids)) if ids else name
+        return '%s(%s)' % (name, ', '.join(show(i, x) for i, x in enumerate(ids))) if ids else name
     return name
 
 
